@@ -441,6 +441,9 @@ pub fn ustr_encode(rng: &mut StdRng, enc: &str, atoms: &[String], chars: &[char]
         units.push(0);
         assert!(units.len() < 0x80, "ucs2 string too long for the length byte");
         let mut out = vec![0x80 | units.len() as u8];
+        if enc == "ucs2stray" {
+            out.push(0x01); // the uncounted byte some games put after the length byte of a UCS-2 string (D9)
+        }
         for u in units {
             out.extend(u.to_le_bytes());
         }
@@ -456,7 +459,11 @@ fn draw_ustr(rng: &mut StdRng, item: &Value, uniq: &mut HashMap<String, HashSet<
         .unwrap_or_default();
     let any = enc == "any";
     if any {
-        enc = if rng.gen_bool(0.7) { "latin1".into() } else { "ucs2".into() };
+        enc = match rng.gen_range(0 .. 10) {
+            0 ..= 6 => "latin1".into(),
+            7 | 8 => "ucs2".into(),
+            _ => "ucs2stray".into(),
+        };
     }
     // escapes take 4 code units, so the number of atoms that fit is bounded by the length byte
     let units: usize = atoms.iter().map(|a| if a == "esc" { 4 } else { 1 }).sum();
